@@ -1403,6 +1403,9 @@ def c10(tier):
                 e["dd"] = "sig32"
             elif c < 0.24:
                 e["enc"] = ("zc", b"pw")
+            if rnd.random() < 0.2:       # local extra field with unknown records and / or 1-3 padding bytes that form no record
+                e["lextra"] = [(0xcafe, b"l" * rnd.randint(0, 9))] if rnd.random() < 0.6 else []
+                e["lextra_tail"] = bytes(rnd.randint(0, 3))
             ents.append(e)
         b, v = refzip.build({"entries": ents, "comment": b"stream"})
         datas = [e["data"] for e in v["entries"]]
